@@ -84,7 +84,7 @@ def modeint(lay):
 
 
 # ------------------------------------------------------------------------------------- filling
-PATTERNS = ("zero", "ones", "min", "max", "one", "count", "rand", "rand2")
+PATTERNS = ("zero", "ones", "min", "max", "one", "count", "rand", "rand2", "small", "fpedge")
 
 
 def _field_bytes(e, pattern, rng, k):
@@ -102,6 +102,21 @@ def _field_bytes(e, pattern, rng, k):
         return b"\x01" + bytes(n - 1)
     if pattern == "count":
         return bytes(((k + j + 1) & 0xFF) for j in range(n))
+    if pattern == "fpedge":
+        # IEEE-754 edge values in floating point fields (+-infinity, largest finite, smallest subnormal, -0.0); integers: most negative + 1
+        if t == "R":
+            v = (float("inf"), float("-inf"), 3.4028234663852886e38 if n == 4 else 1.7976931348623157e308, 1e-45 if n == 4 else 5e-324, -0.0)[(k + rng.randrange(5)) % 5]
+            return struct.pack("<f" if n == 4 else "<d", v)
+        return b"\x01" + bytes(n - 2) + b"\x80" if n > 1 else b"\x81"
+    if pattern == "small":
+        # small values (0..3) in every field: versions, enumerations, selectors and flags take their meaningful values together
+        if t == "R":
+            return struct.pack("<f" if n == 4 else "<d", float(rng.randrange(0, 4)))
+        if t == "C":
+            return bytes(rng.randrange(0x30, 0x34) for _ in range(n))
+        if t == "A":
+            return bytes(rng.randrange(0, 4) for _ in range(n))
+        return bytes((rng.randrange(0, 4),)) + bytes(n - 1)
     if t == "R":
         # random but mostly finite floats
         if rng.random() < 0.9:
@@ -173,7 +188,7 @@ def cfg_items(rng, cfgdb, pattern):
     if not cfgdb or pattern == "zero":
         return b""
     out = b""
-    n = {"one": 1, "ones": 64}.get(pattern, rng.randrange(1, 12))
+    n = {"one": 1, "ones": 64, "small": 2}.get(pattern, rng.randrange(1, 12))
     used = set()
     for _ in range(n):
         if rng.random() < 0.8:
@@ -195,6 +210,13 @@ def cfg_items(rng, cfgdb, pattern):
         if key in used:
             continue
         used.add(key)
+        if rng.random() < 0.15 and (key[3] >> 4) & 7 in (1, 2, 3, 4, 5):
+            # the same group/item with one of the reserved bits of a key ID set (12..15, 24..27, 31): another, undocumented key
+            kid2 = int.from_bytes(key, "little") ^ (1 << rng.choice((12, 13, 14, 15, 24, 25, 26, 27, 31)))
+            key2 = kid2.to_bytes(4, "little")
+            if key2 not in used and not any(bytes(x["key"]) == key2 for x in cfgdb):
+                used.add(key2)
+                out += key2 + rng.randbytes(size)
         val = rng.randbytes(size)
         if cfgdb and key[3] & 0x70 in (0x40, 0x50):
             # R4/R8-typed keys: keep the value a finite float (NaN payloads cannot be projected without their offset)
@@ -403,4 +425,36 @@ def obs_c02(case):
     return ev
 
 
-OBSERVERS = {"c02": obs_c02}
+def obs_c02_mt(case):
+    """the same parse as obs_c02, performed by several threads at once as the first use of the library in a fresh interpreter"""
+    import os
+    import subprocess
+    import sys
+    import tempfile
+
+    from ..common import VERIF
+
+    d = tempfile.mkdtemp(prefix="c02mt-", dir=os.path.join(VERIF, "build"))
+    cin, cout = os.path.join(d, "case.json"), os.path.join(d, "out.json")
+    try:
+        c = dict(case)
+        c["cfgtypes"] = CFGTYPES
+        with open(cin, "w") as f:
+            json.dump(c, f)
+        env = dict(os.environ, PYTHONPATH=VERIF, PYTHONDONTWRITEBYTECODE="1")
+        p = subprocess.run([sys.executable, "-m", "harness.drivers.walk_child", cin, cout], cwd=VERIF, env=env, capture_output=True, timeout=300)
+        if not os.path.exists(cout):
+            raise MachineryError("C02 child failed: rc=%s %s" % (p.returncode, p.stderr[-600:]))
+        with open(cout) as f:
+            ev = json.load(f)
+        if ev is None:
+            raise MachineryError("C02 child: thread produced no event")
+        return ev
+    finally:
+        for x in (cin, cout):
+            if os.path.exists(x):
+                os.remove(x)
+        os.rmdir(d)
+
+
+OBSERVERS = {"c02": obs_c02, "c02mt": obs_c02_mt}
